@@ -280,8 +280,19 @@ func cmdCheck(args []string) int {
 		for _, u := range fr.Unsupported {
 			rep.problems = append(rep.problems, fmt.Sprintf("%s: out of reach: %s", c.Key, u))
 		}
+		// A function that belongs to this property ONLY through its `deterministic[Cxx]` clause and carries functional
+		// clauses of other properties is checked here for determinism only (no reachable call of a node-local source, every
+		// callee deterministic); its frame, loop, call-site and functional obligations are discharged by the checks of the
+		// properties its other labels name (reported in the evidence as determinism-only).
+		detOnly := !c.StrongProps[*prop] && len(c.StrongProps) > 0
+		if detOnly {
+			rep.detOnly = append(rep.detOnly, c.Key+" (other obligations under "+strings.Join(sortedKeys(c.StrongProps), ",")+")")
+		}
 		for _, o := range fr.Obls {
 			if !labelRelevant(o.Label, *prop) {
+				continue
+			}
+			if detOnly && o.Kind != "deterministic" && !o.Cover {
 				continue
 			}
 			j := &job{fr: fr, o: o}
